@@ -213,6 +213,9 @@ func checkC03(P *Prog, r *Result) {
 	P.checkIndexAgreement(r)
 	P.checkStructWritesByField(r)
 	P.checkPointerAlloc(r)
+	// with no issues reported a leaf holds the coercion of *its* input: a catch value replaces it only when that
+	// node itself failed, never because Exit / CanCatch were left set by a sibling or an earlier element (C05's rule)
+	shareRule(P, r, checkC05, "C05/confinement", nil, "C03/catch-value-only-on-own-failure", 10)
 }
 
 // closureEffect: does option closure cl act on its argument?
